@@ -157,7 +157,7 @@ pub fn run() -> i32 {
     let mut ctx = Ctx::new("C10", "exploration");
     let seed = ctx.seed;
     let tier = ctx.tier;
-    ctx.rule = "full products: (a) 6 passwords (incl. empty and non-UTF-8) x opslimit {1,2,3,4} x memlimit {8192,8193,9000,16384,65536,1 MiB}: crypto_pwhash_str under a pinned RNG, the string parsed by an independent PHC parser — algorithm, version, costs must be the ones used, the hash field must be argon2id(pw, encoded salt, t, m) per libsodium (so the string describes the salt actually used); libsodium's verifier accepts it for the right password and rejects a wrong one; (b) the same product with strings made by libsodium verified by crypto_pwhash_str_verify and PwHash::from_string().verify and re-encoded; (c) both algorithms x salt length every 8..=64 x hash length every 16..=128 (quick: step 3 + boundaries), strings from libsodium's encoder: from_string -> to_string returns the same string, verify accepts/rejects; PwHash::hash round trip per length; (d) needs_rehash truth table over (ops,mem)^2 for dryoc- and libsodium-made strings of both algorithms compared with libsodium's answer; non-trivial = cell executed".into();
+    ctx.rule = "full products: (a) 6 passwords (incl. empty and non-UTF-8) x opslimit {1,2,3,4} x memlimit {8192,8193,9000,16384,65536,1 MiB}: crypto_pwhash_str under a pinned RNG, the string parsed by an independent PHC parser — algorithm, version, costs must be the ones used, the hash field must be argon2id(pw, encoded salt, t, m) per libsodium (so the string describes the salt actually used); libsodium's verifier accepts it for the right password and rejects a wrong one; (b) the same product with strings made by libsodium verified by crypto_pwhash_str_verify and PwHash::from_string().verify and re-encoded; (c) both algorithms x salt length every 8..=64 x hash length every 16..=128 (quick: step 3 + boundaries), strings from libsodium's encoder: from_string -> to_string returns the same string, verify accepts/rejects; PwHash::hash round trip per length; (c') every boundary cost value (m up to 2^32-1 KiB, t up to 2^32-1) parsed, re-encoded and asked for needs_rehash without hashing; (d) needs_rehash truth table over (ops,mem)^2 for dryoc- and libsodium-made strings of both algorithms compared with libsodium's answer; non-trivial = cell executed".into();
     ctx.assume("libsodium's encoder/verifier is the reference for the string format; RNG seam H3 pins the salt");
     let pws = passwords(seed);
     let opss = [1u64, 2, 3, 4];
@@ -223,6 +223,34 @@ pub fn run() -> i32 {
     });
     ctx.note("section_c_dims", json!({"salt_lengths": sls.len(), "hash_lengths": hls.len()}));
     ctx.absorb("parse-reencode", st);
+
+    // (c') cost fields: every boundary of the 32-bit / KiB->byte conversions, parse + re-encode +
+    // needs_rehash only (no hashing at these costs)
+    let mut st = Stats::new();
+    let e = base64::engine::general_purpose::STANDARD_NO_PAD;
+    let ms: [u64; 12] = [8, 9, 1023, 1024, 65536, 1 << 20, (1 << 21) - 1, 1 << 21, 4194303, 4194304, 4194305, 4294967295];
+    let ts: [u64; 6] = [1, 2, 9, 10, 65536, 4294967295];
+    for alg in ["argon2id", "argon2i"] {
+        for &m in &ms {
+            for &t in &ts {
+                let sstr = format!("${}$v=19$m={},t={},p=1${}${}", alg, m, t, e.encode([7u8; 16]), e.encode([9u8; 32]));
+                let r = guarded(AssertUnwindSafe(|| {
+                    let o: PwHash<Vec<u8>, Vec<u8>> = PwHash::from_string(&sstr).map_err(|e| format!("{:?}", e))?;
+                    let re = o.to_string();
+                    let nr_same = crypto_pwhash_str_needs_rehash(&sstr, t, (m as usize) * 1024).map_err(|e| format!("{:?}", e))?;
+                    let nr_diff = crypto_pwhash_str_needs_rehash(&sstr, t, ((m as usize) ^ 1) * 1024).map_err(|e| format!("{:?}", e))?;
+                    Ok::<(String, bool, bool), String>((re, nr_same, nr_diff))
+                }));
+                let ok = matches!(&r, Ok(Ok((re, false, true))) if re == &sstr);
+                st.eval(&("costs", alg, m, t), true, if ok { "cost-fields-roundtrip" } else { "cost-fields-wrong" });
+                if !ok {
+                    fail(&mut st, "cost-fields", if r.is_err() { "panic" } else { "differs" }, format!("'{}': from_string -> to_string / needs_rehash gave {:?}", sstr, r), json!({"sec": "none"}));
+                }
+            }
+        }
+    }
+    st.sample(json!({"section": "c'", "m_values_KiB": ms, "t_values": ts}));
+    ctx.absorb("cost-fields", st);
 
     // (d) needs_rehash
     let mut st = Stats::new();
